@@ -638,7 +638,7 @@ class Effects:
 
     relevant_only = False
 
-    def effects_before_raise(self, f, min_level=ADDS_EMPTY, relevant_only=False):
+    def effects_before_raise(self, f, min_level=ADDS_EMPTY, relevant_only=False, refusal_pred=None):
         """[(raise node, [(stmt, level, Event)...])] for raises reachable after an effect on some path.
         With relevant_only, only validity-relevant mutations count."""
         out = []
@@ -705,6 +705,8 @@ class Effects:
                 return block(st.body, c0)
             if isinstance(st, (ast.FunctionDef, ast.AsyncFunctionDef, ast.ClassDef)):
                 return cur, True
+            if refusal_pred is not None and cur and refusal_pred(st):
+                out.append((st, list(cur)))     # a statement that can refuse (in a callee), reached after an effect
             return note(st, cur), True
 
         block(f.node.body, [])
